@@ -70,6 +70,18 @@ PARSER_OBS = ("binlogEvent_Format,binlogEvent_Rotate,binlogEvent_Query,binlogEve
               "Streamer_binlogPosition,StatementType_String,NewMysqlTableName")
 runs['parser'] = {'pkg': '.', 'func': 'Streamer.parseEvents', 'observer': PARSER_OBS,
                   'ifacetag': 'replication.BinlogEvent=replication.mysql56BinlogEvent', 'min_obligations': 1500, 'wall': 900}
+for n, f in [('conn-read', 'slaveConnection.readBinlogEvent'), ('conn-reader', 'slaveConnection.startDumpFromBinlogPosition$1'),
+             ('conn-new', 'newSlaveConnection'), ('conn-dump', 'slaveConnection.startDumpFromBinlogPosition'),
+             ('stream', 'Streamer.Stream'), ('stream-error', 'Streamer.Error')]:
+    runs[n] = {'pkg': '.', 'func': f}
+# Stream assigns its own receiver's fields (ctx, sendTransaction, errChan): by design, not a frame violation
+runs['stream']['exclude'] = ['frame:store-field']
+CONN_ASSUME = [
+    "dependency contract (github.com/Breeze0806/mysql DumpConn, outside /repo): ReadPacket returns an error or a packet of at least one byte and may reuse its buffer; Exec / NoticeDump encode their arguments per the MySQL protocol; Close unblocks ReadPacket; HandleErrorPacket carries the master's code and message",
+    "trusted contracts (assumed, bodies not verified): (*Error).msgf returns its receiver and changes only the message; SetBinlogPosition / binlogPosition store and load the position through atomic.Value (Load returns the last Store), mirrored by a ghost variable",
+    "library contracts: sync.Once.Do runs its function once; context.WithCancel returns a child context that is done once cancel is called; channels are FIFO and deliver the value sent",
+    "goroutines: the reader body is verified as a sequential unit against channel contracts (capacity, single sender and closer, send before close); nothing is decided about schedules, bounded time or data races",
+]
 PARSER_ASSUME = [
     "events received from the reader are mysql56BinlogEvent values (the only producer, readBinlogEvent, constructs exactly those)",
     "at the level of the dispatch loop the body parsers (Format, Rotate, Query, TableMap, Rows, TableID), GetStatementCategory, the row converters and the error constructors are pure functions of their arguments (uninterpreted); their own units verify them; panics inside body parsers on malformed bodies are outside this unit (observation O3)",
@@ -134,10 +146,10 @@ props['C09'] = {
 }
 props['C08'] = {
     'level': 'proof',
-    'claim': "Parser: the change buffer is nil or memory allocated after the last accepted delivery (allocation-watermark invariant), so nothing the parser does later writes into a delivered transaction's event list; no store into pre-existing memory anywhere in the loop. Ownership clause of every CellBytes case: the returned bytes are a window of the caller's (event-private) buffer or memory allocated by the call, never a package-level buffer or other third-party memory; no store into pre-existing byte memory (frame).",
+    'claim': "readBinlogEvent hands on a fresh copy of the packet payload (never the driver's buffer), byte for byte. Parser: the change buffer is nil or memory allocated after the last accepted delivery (allocation-watermark invariant), so nothing the parser does later writes into a delivered transaction's event list; no store into pre-existing memory anywhere in the loop. Ownership clause of every CellBytes case: the returned bytes are a window of the caller's (event-private) buffer or memory allocated by the call, never a package-level buffer or other third-party memory; no store into pre-existing byte memory (frame).",
     'note': "Trusted: govc's allocation model (fresh objects are distinct from all pre-existing ones), solvers.",
     'technique': GEN,
-    'runs': cell([n for n in TYPES if n not in ('json', 'newdecimal')], include=['ensures:owner', 'frame:.*']) + [{'use': 'parser', 'include': ['inv-.*', 'frame:.*']}],
+    'runs': cell([n for n in TYPES if n not in ('json', 'newdecimal')], include=['ensures:owner', 'frame:.*']) + [{'use': 'parser', 'include': ['inv-.*', 'frame:.*']}, {'use': 'conn-read', 'include': ['ensures:copy', 'frame:.*', 'safe:.*']}],
     'assumptions': PARSER_ASSUME[:3],
 }
 props['C02'] = {
@@ -161,8 +173,33 @@ props['C04'] = {
     'claim': "On every one of the return statements of parseEvents (cancellation, end of stream, invalid event, decode / lookup / handler failure, unsupported event, column-count mismatch) the position returned equals the ghost accepted boundary: the position after the last transaction for which the handler returned nil, or the initial / rotated position. Stream stores exactly that value for the next attempt.",
     'note': "Trusted: govc, solvers. The multi-attempt statement is the induction over attempts of this per-attempt contract (paper lemma).",
     'technique': GEN + "; ghost accepted-boundary variable, postcondition on every return path",
-    'assumptions': PARSER_ASSUME,
-    'runs': ['parser'],
+    'assumptions': PARSER_ASSUME + CONN_ASSUME[1:2],
+    'runs': ['parser', {'use': 'stream', 'include': ['ensures:writeback', 'call-pre:.*', 'safe:.*']}],
+}
+props['C05'] = {
+    'level': 'other',
+    'explanation': "Sequential, per-path fragment of the property decided by deductive contracts: (a) Stream closes the connection exactly once on every path after one was obtained, and newSlaveConnection closes it on its own failure path; (b) the reader goroutine, on every exit path, sends exactly one non-nil reason on the error channel (capacity 1, so the send cannot block), then closes it, then closes the event channel, and its only blocking send sits in a select with a ctx.Done() alternative; (c) when Stream returns after the reader was started, the parser ended cleanly or the reader's context has been cancelled (release obligation); (d) Error() never receives from a nil channel; (e) the handler is called only synchronously from parseEvents (callback contract). NOT decided by this technique: bounded-time return, absence of data races, behaviour under every interleaving — sequential contracts have no scheduler or clock.",
+    'claim': "Sequential fragment (a)-(e) of the termination / clean-up property as discharged obligations over the real Stream, newSlaveConnection, reader goroutine body and Error(); see coverage.explanation for what is and is not decided.",
+    'note': "Not decided: schedules, bounded time, data races (no scheduler in sequential deductive contracts). Assumed: channel FIFO semantics, sync.Once, context, the driver's Close unblocking ReadPacket.",
+    'technique': GEN + "; channel contracts with ghost state, call-trace contract on the connection, deferred-call modelling",
+    'assumptions': CONN_ASSUME,
+    'runs': ['conn-reader', 'conn-new', 'stream', {'use': 'stream-error', 'include': ['safe:.*']}, {'use': 'parser', 'include': ['callback-pre:.*', 'safe:.*']}],
+}
+props['C06'] = {
+    'level': 'proof',
+    'claim': "readBinlogEvent classifies exactly (transport error / EOF packet / ERR packet / event) and wraps the original reason; the reader publishes that reason (or the context's error on the cancel path) before closing its channels; Stream returns non-nil exactly when set-up or the parser failed; parseEvents returns non-nil on every handler / decode / lookup / unsupported-event path; Error() returns nil only for a closed channel, a cancellation or the master's EOF while the caller's context is live.",
+    'note': "Known finding F5 (open): when the caller's context has been cancelled by the time Error() runs, any reason (lost connection, master error) is dropped — obligation ensures:filterLateCancel. Cross-goroutine ordering (send happens before the matching receive) is the channel's contract, assumed.",
+    'technique': GEN + "; path postconditions and a channel value invariant",
+    'assumptions': CONN_ASSUME,
+    'runs': ['conn-read', 'conn-reader', 'stream', 'stream-error', {'use': 'parser', 'include': ['ensures:.*']}],
+}
+props['C07'] = {
+    'level': 'proof',
+    'claim': "Call-trace contract on the connection: newSlaveConnection issues exactly one Exec with \"SET @master_binlog_checksum=@@global.binlog_checksum\" and neither dumps nor reads; startDumpFromBinlogPosition issues exactly one NoticeDump(serverID, uint32(offset) with no truncation for offsets 0..2^32-1, file name, flags 0) before any read; Stream passes its configured 32-bit server id and the stored position (SetBinlogPosition's argument, or the previous attempt's write-back).",
+    'note': "Assumed: the driver encodes NoticeDump / Exec arguments per the protocol (dependency outside /repo); atomic.Value's Load/Store contract.",
+    'technique': GEN + "; call-trace ghost variables advanced by hooks on the interface methods",
+    'assumptions': CONN_ASSUME,
+    'runs': ['conn-new', 'conn-dump', 'stream'],
 }
 props['C17'] = {
     'level': 'proof',
